@@ -18,6 +18,7 @@
 (*   SafeSubBalance       x - y, an error when the result is negative       *)
 (*   SdkIntTrim           integer part, truncated toward zero               *)
 (*   Cmp                  numeric comparison                                *)
+(*   QuoInteger, Rem      integer quotient (toward zero) and remainder      *)
 (***************************************************************************)
 EXTENDS Integers, Sequences, TLC
 
@@ -131,6 +132,23 @@ DQuo(x, y) ==
        IN IF dm.r = <<>> /\ ~LowNonZero(dm.q, Len(dm.q) - Prec)
           THEN [ok |-> TRUE, d |-> z, rounded |-> FALSE]
           ELSE [ok |-> TRUE, d |-> Round(z).d, rounded |-> TRUE]
+
+\* integer quotient and remainder (apd QuoInteger / Rem under the 34-digit context): both operands are
+\* brought to the smaller exponent, the integer division is exact; an error when the divisor is zero or
+\* the integer quotient needs more than Prec digits ("division impossible").  The remainder has the sign
+\* of the dividend and is rounded to Prec digits like every other result.
+NumDigitsN(n) == IF n = <<>> THEN 1 ELSE Len(n)
+Upscale(x, y) == LET s == MinI(x.e, y.e) IN [a |-> AlignC(x, s), b |-> AlignC(y, s), s |-> s]
+DQuoInteger(x, y) ==
+  IF IsZeroD(y) THEN [ok |-> FALSE, d |-> Mk(FALSE, <<>>, 0)]
+  ELSE LET u == Upscale(x, y)  dm == NDivMod(u.a, u.b) IN
+       IF NumDigitsN(dm.q) > Prec THEN [ok |-> FALSE, d |-> Mk(FALSE, <<>>, 0)]
+       ELSE [ok |-> TRUE, d |-> Mk(x.neg # y.neg, dm.q, 0)]
+DRem(x, y) ==
+  IF IsZeroD(y) THEN [ok |-> FALSE, d |-> Mk(FALSE, <<>>, 0)]
+  ELSE LET u == Upscale(x, y)  dm == NDivMod(u.a, u.b) IN
+       IF NumDigitsN(dm.q) > Prec THEN [ok |-> FALSE, d |-> Mk(FALSE, <<>>, 0)]
+       ELSE [ok |-> TRUE, d |-> Round(Mk(x.neg, dm.r, u.s)).d]
 
 \* truncation toward zero to an integer (as a decimal with exponent 0)
 DTrim(x) == IF x.e >= 0 THEN Mk(x.neg, Shl(x.c, x.e), 0) ELSE Mk(x.neg, Shr(x.c, -x.e), 0)
